@@ -100,15 +100,17 @@ def selftest(ctx):
         lg = logging.getLogger('kmip.c20.selftest')
         lg.debug('debug %s', c.hex())
         lg.info('planted %s', base64.b64encode(c).decode())
+        lg.info('fragment %r', c[3:14])
         try:
             raise ValueError('inner ' + c.hex().upper())
         except ValueError as e:
             lg.exception(e)
         recs = [H.record_dict(r, ctx.repo) for r in cap.raw]
     forms = sorted({f for r in recs for _, f, _ in can.scan(r['all'])})
-    if len(recs) != 2 or 'base64' not in forms or 'hex' not in forms or 'Traceback' not in recs[1]['all']:
+    if len(recs) != 3 or 'base64' not in forms or 'hex' not in forms or 'Traceback' not in recs[2]['all'] or \
+            not any(f.startswith('fragment') for f in forms):
         ctx.disagreement('harness-selftest', {'records': len(recs), 'forms': forms})
-    return len(recs) == 2
+    return len(recs) == 3
 
 
 def printable(s):
@@ -177,15 +179,18 @@ def run_history(ctx, table, hist, struct_seed, can_seed, cases, meta, stats):
     finally:
         w.close()
     # ---- direct oracle 1: canary scan
-    for where, key, text in texts_of(w):
+    all_texts = texts_of(w)
+    found = w.can.scan_many([t for _, _, t in all_texts])
+    for idx, (where, key, text) in enumerate(all_texts):
+        if idx not in found:
+            continue
         if key[0] == 'client-error':
             # An exception the client library raises into the calling application (its own process, which holds the
             # secret already) is neither a log record nor an error message returned by the server: outside the
             # property.  Counted for the evidence, not a violation.
-            if w.can.scan(text):
-                stats['client_exception_texts_with_secret'] += 1
+            stats['client_exception_texts_with_secret'] += 1
             continue
-        for kind, form, needle in w.can.scan(text):
+        for kind, form, needle in found[idx]:
             if key[0] == 'log':
                 site = site_name(table, key)
             elif key[0] == 'server-log-file':
@@ -193,7 +198,7 @@ def run_history(ctx, table, hist, struct_seed, can_seed, cases, meta, stats):
             else:
                 s, _ = table.locate_message(text)
                 site = 'message' if s is None else '%s:%s' % (s['file'], s['func'])
-            at = text.find(needle) if form not in ('hex', 'half-hex') else text.lower().find(needle)
+            at = text.find(needle) if form not in ('hex', 'half-hex', 'fragment-hex') else text.lower().find(needle)
             sig = {'oracle': 'canary-scan', 'site': site, 'canary': kind, 'form': form, 'channel': key[0]}
             wit = {'history': hist['name'], 'layer': hist['layer'], 'struct_seed': struct_seed, 'canary_seed': can_seed,
                    'where': where, 'canary_kind': kind, 'form': form,
@@ -366,6 +371,9 @@ def run(ctx):
             ctx.count(k, v)
         stats['steps'] += len(wa.trace)
         stats['canaries'] += len(wa.can.items)
+    # report a canary hit (the secret itself, in a known encoding) ahead of effective-level and secret-swap witnesses
+    rank = {'canary-scan': 0, 'effective-level': 1, 'secret-swap': 2}
+    ctx.violations.sort(key=lambda v: rank.get(v['signature'].get('oracle'), 3))
     bad = ctx.run_cases('emissions', HEADER, cases, CHECKER,
                         what='every INFO+ record / result message re-rendered from its site of gen/LogSites.v (check_case)')
     for i in bad[:20]:
